@@ -12,7 +12,7 @@ VARIANTS = [
     M('C05', 'row-count-reported-but-not-failing', E(CP, "            self.different_numbers_of_rows(diffs, na, nr)\n            same = False", "            self.different_numbers_of_rows(diffs, na, nr)"),
       rule='C05-RFAIL', key='different_numbers_of_rows'),
     M('C05', 'precision-sticks-between-calls', E(CP, "        self.precision = nvl(precision, 6)", "        self.precision = nvl(precision, getattr(self, 'precision', 6))"), rule='C05-STATE', key='self.precision'),
-    M('C05', 'order-taken-from-option-list', E(CP, "            order2 = [c for c in list(ref_df) if c in check_order if c in df]", "            order2 = [c for c in check_order if c in ref_df if c in df]"), rule='C05-ORDER', key='wrong_ordering'),
+    M('C05', 'order-taken-from-option-list', E(CP, "            order2 = [c for c in list(ref_df) if c in check_order if c in df]", "            order2 = [c for c in check_order if c in ref_df if c in df]"), rule='C05-ORDER', key='order-comparison'),
     M('C05', 'failures-not-asserted', E(RT, "        (failures, msgs) = r\n        self._check_failures(failures, msgs)\n\n    def assertDataFrameCorrect(", "        (failures, msgs) = r\n        self._check_failures(0 * failures, msgs)\n\n    def assertDataFrameCorrect("),
       rule=None, key=''),
     M('C05', 'refactor-same-len-inline', E(CP, "        same_len = na == nr\n        if not same_len:", "        if na != nr:"), kind='refactor'),
